@@ -460,7 +460,8 @@ def h9_replaced_text_released(prog, ctx):
         # is the slot fresh in this function?
         grows = [c for c in f.calls(("realloc", "calloc", "malloc")) if "file_entry" in render(c) or "sizeof(econf_file)" in render(c)]
         counts_up = [st for l, r, st, k in query.stores(f) if k == "++" and render(l).endswith("length")]
-        nomem = set(cfg.block_of(r) for r in f.returns() if query.returned_constant(r) == "ECONF_NOMEM" or (r.children and r.children[0].is_null_const()))
+        nomem = set(cfg.block_of(r) for r in f.returns(inlined=True) if query.returned_constant(r) == "ECONF_NOMEM" or (r.children and r.children[0].is_null_const())
+                    or (r.children and "ECONF_NOMEM" in render(r.children[0])))
         for site, fld, how in sites:
             path = render(fld)
             base = fld.children[0].strip()
@@ -469,6 +470,10 @@ def h9_replaced_text_released(prog, ctx):
                 root = root.children[0].strip()
             if base.k == "DeclRefExpr" and base.j.get("dk") == "local" and not (base.j.get("ct") or "").endswith("*"):
                 continue                                        # a local struct value being filled
+            if root.k == "DeclRefExpr" and root.j.get("dk") == "local":
+                continue                                        # reached through a local pointer (a slot a helper handed back, a freshly grown array): not followed
+            if how == "assign" and query.is_slot_init(site):
+                continue                                        # a run of new slots being cleared
             fresh = any(cfg.block_of(site) in cfg.reachable(cfg.block_of(g)) for g in grows + counts_up) and ("length - 1" in path or "length]" in path)
             if fresh:
                 continue
@@ -587,8 +592,57 @@ def h10_lists_terminated(prog, ctx):
     ctx.floor("C20.H10 list allocations", n, 6)
 
 
+def h11_new_objects_start_empty(prog, ctx):
+    """H11: a new object holds nothing: no entries in use, no directory lists, no sections - the counts a creator stores are 0 (its lists NULL),
+    and its capacity is the number of slots it allocates and initialises.  A count of 1 with a NULL list, or a `length` equal to the capacity
+    with slots nobody filled, sends econf_freeFile() and every reader into memory that holds nothing of theirs."""
+    for name in ("econf_newKeyFile", "econf_newKeyFile_with_options"):
+        if not prog.has_fn(name):
+            continue
+        f = prog.fn(name)
+        ctx.touch(f)
+        cfg = f.cfg
+        first_loop = next((x for x in f.walk() if x.k in ("ForStmt", "WhileStmt", "DoStmt")), None)
+        for fld in ("length", "parse_dirs_count", "conf_count", "group_count"):
+            sts = [(st, rhs) for lhs, rhs, st, kind in query.stores(f) if kind == "=" and lhs.strip().k == "MemberExpr" and lhs.strip().j.get("member") == fld
+                   and lhs.strip().j.get("rec") == "econf_file" and rhs is not None and (first_loop is None or not st.within(first_loop))
+                   and (first_loop is None or cfg.block_of(st) not in cfg.reachable(cfg.loop_header(first_loop) or cfg.entry) or fld == "length")]
+            sts = [(st, rhs) for st, rhs in sts if not any(a.k in ("ForStmt", "WhileStmt", "DoStmt") for a in st.ancestors())]
+            if fld != "length":
+                sts = [(st, rhs) for st, rhs in sts if rhs.const_value() is not None]
+            bad = [(st, rhs) for st, rhs in sts if rhs.const_value() != 0]
+            if bad:
+                ctx.fail("H11", "%s: a new object has %s == 0" % (name, fld), bad[0][0].where,
+                         "`%s`: the object starts with a count that nothing backs" % render(bad[0][0])[:60], key="new-count:%s:%s" % (name, fld))
+            elif sts:
+                ctx.ok("H11", "%s: a new object has %s == 0" % (name, fld), sts[0][0].where, render(sts[0][0])[:50])
+        caps = [(st, rhs) for lhs, rhs, st, kind in query.stores(f) if kind == "=" and lhs.strip().k == "MemberExpr" and lhs.strip().j.get("member") == "alloc_length"
+                and rhs is not None and not any(a.k in ("ForStmt", "WhileStmt", "DoStmt") for a in st.ancestors())]
+        allocs = [c for c in f.calls(("malloc", "calloc")) if "struct file_entry" in render(c)]
+        if allocs:
+            want = None
+            m9 = re.search(r"(\w+) \* sizeof\(struct file_entry\)|sizeof\(struct file_entry\) \* (\w+)", render(allocs[0]))
+            if m9:
+                want = m9.group(1) or m9.group(2)
+            wv = None
+            for x in allocs[0].walk():
+                if x.is_expr() and render(x) == want:
+                    wv = x.const_value()
+            good = [1 for st, rhs in caps if render(rhs) == want or (wv is not None and rhs.const_value() == wv)]
+            if caps and good and all(render(rhs) == want or (wv is not None and rhs.const_value() == wv) or rhs.const_value() == 0 for st, rhs in caps):
+                ctx.ok("H11", "%s: the capacity is the number of slots allocated" % name, caps[0][0].where, "alloc_length = %s, array of %s entries" % (render(caps[0][1]), want))
+            elif not caps:
+                ctx.fail("H11", "%s: the capacity is the number of slots allocated" % name, allocs[0].where,
+                         "an array of %s entries is allocated but `alloc_length` is never set to it: the object believes it has no room, and its slots are never released" % want,
+                         key="new-capacity:%s" % name)
+            else:
+                ctx.fail("H11", "%s: the capacity is the number of slots allocated" % name, caps[0][0].where,
+                         "alloc_length = %s, but the array has %s entries" % (render(caps[0][1]), want), key="new-capacity:%s" % name)
+
+
 def run(prog, ctx):
     h8_lists_filled(prog, ctx)
+    h11_new_objects_start_empty(prog, ctx)
     h10_lists_terminated(prog, ctx)
     h9_replaced_text_released(prog, ctx)
     # H7: the directory lists of an object are released by the code that replaces them only when their count says they exist: an
